@@ -1,6 +1,6 @@
 """C17  Function formulas follow the documented precedence and associativity.
 
-1. TLC: spec/MC_FunctionSyntax - 8,663 well-typed expression trees (two operator levels over an alphabet with
+1. TLC: spec/MC_FunctionSyntax - ~10,000 well-typed expression trees (two operator levels over an alphabet with
    every precedence level and both associativities, unary and binary functions, pi) x minimal / redundant
    parentheses: reading the printed formula (shunting-yard + the postfix-to-tree machine of Function.parse)
    returns the tree and the postfix is the tree's; seeded deeper trees over all 13 operators and 34 functions
@@ -138,20 +138,116 @@ def check_tree(ctx, fl, e, c, where):
             # arrays: elementwise
             if st == 0 and text == " ".join(toks):
                 xs = np.array([env["x"] for env in ENVS])
-                e.input_variables[0].value = np.array([env["a"] for env in ENVS])
-                f.variables = {"c": np.array([env["c"] for env in ENVS])}
+                av = np.array([env["a"] for env in ENVS])
+                cv = np.array([env["c"] for env in ENVS])
+                e.input_variables[0].value = av
+                f.variables = {"c": cv}
+                keep = (xs.copy(), np.array(e.input_variables[0].value, copy=True), cv.copy())
                 ctx.count()
                 try:
                     got = np.broadcast_to(np.asarray(f.membership(xs), dtype=float), xs.shape)
+                    now = (xs, np.asarray(e.input_variables[0].value), f.variables["c"])
+                    if not all(np.array_equal(k, n, equal_nan=True) for k, n in zip(keep, now)):
+                        ctx.violation("Function.membership/array-operands-modified", case, [k.tolist() for k in keep], [np.asarray(n).tolist() for n in now],
+                                      note=f"evaluating '{text}' changed the values of its own variables")
+                        e.input_variables[0].value = av = keep[1].copy()
                     if not all(w is None or feq(g, w) for g, w in zip(got, vals)):
                         ctx.violation(f"Function.membership/array-value/{tag}", case, vals, got.tolist(), note=f"'{text}' on arrays differs from the documented elementwise meaning")
                 except Exception as ex:
                     ctx.violation(f"Function.membership/array-raises-{type(ex).__name__}/{tag}", case, vals, f"{type(ex).__name__}: {ex}", note=f"'{text}' cannot take array operands")
 
 
+def scope_leg(ctx, fl):
+    """spec/MC_FunctionScope: variable resolution of one long-lived term while the engine, its variables' values, the
+    term's own variables and the term itself change; every behaviour TLC enumerates is replayed step by step."""
+    from .xreal import to_fraction
+    head = "SPECIFICATION Spec\nCONSTANTS MaxSteps = {n}\n  Emit = {e}\n  StaleScope = {c}\n"
+    inv = "INVARIANT TypeOK\nINVARIANT SeesCurrentScope\nINVARIANT ValueIffResolvable\nVIEW View\nCHECK_DEADLOCK FALSE\n"
+    n = 4 if ctx.quick else 5
+    ctx.expect_holds(ctx.tlc("MC_FunctionScope", write_cfg("MC_FunctionScope", head.format(n=n + 1, e="FALSE", c="FALSE") + inv), workers=16, timeout=3000), "MC_FunctionScope")
+    ctx.expect_canary(ctx.tlc("MC_FunctionScope", write_cfg("MC_FunctionScope_canary", head.format(n=n, e="FALSE", c="TRUE") + inv), workers=16), "StaleScope")
+    g = ctx.tlc("MC_FunctionScope", write_cfg("Gen_FunctionScope", head.format(n=n, e="TRUE", c="FALSE") + "INVARIANT EmitInv\nCHECK_DEADLOCK FALSE\n"), workers=16, timeout=3000)
+    if len(g.emitted) < 1000:
+        raise MachineryError(f"only {len(g.emitted)} scope behaviours")
+    for b in g.emitted:
+        texts = [" ".join(t) for t in b["formulas"]]
+        e = fl.Engine("scope")
+        f = fl.Function.create("f", texts[0], e)
+        ctx.traces += 1
+        nontrivial = False
+        for i, (st, ex) in enumerate(zip(b["steps"], b["expect"])):
+            a, name = st["act"], st["name"]
+            v = float(to_fraction(st["v"]))
+            lst = e.input_variables if any(o.name == name for o in e.input_variables) else e.output_variables
+            try:
+                if a == "AddIn":
+                    e.input_variables.append(fl.InputVariable(name))
+                    e.input_variables[-1].value = v
+                elif a == "AddOut":
+                    e.output_variables.append(fl.OutputVariable(name))
+                    e.output_variables[-1].value = v
+                elif a == "Remove":
+                    lst[:] = [o for o in lst if o.name != name]
+                elif a == "Replace":
+                    j = [o.name for o in lst].index(name)
+                    lst[j] = type(lst[j])(name)
+                    lst[j].value = v
+                elif a == "SetValue":
+                    next(o for o in lst if o.name == name).value = v
+                elif a == "SetTermVar":
+                    f.variables[name] = v
+                elif a == "DelTermVar":
+                    del f.variables[name]
+                elif a == "Configure":
+                    f.configure(texts[st["k"] - 1])
+                elif a == "Unload":
+                    f.unload()
+                elif a == "Load":
+                    f.load()
+                elif a == "Detach":
+                    f.update_reference(None)
+                elif a == "Attach":
+                    f.update_reference(e)
+                elif a != "Evaluate":
+                    raise MachineryError(f"unknown scope action {a}")
+            except MachineryError:
+                raise
+            except Exception as exn:
+                ctx.violation(f"Function/scope/{a}-raises-{type(exn).__name__}", {"behaviour": b, "step": i}, "no error", f"{type(exn).__name__}: {exn}", step=i)
+                break
+            if a != "Evaluate":
+                continue
+            ctx.count()
+            case = {"behaviour": b, "step": i}
+            try:
+                got = float(np.asarray(f.membership(v), dtype=float))
+                err = None
+            except (ValueError, RuntimeError, KeyError) as exn:
+                got, err = None, type(exn).__name__
+            except Exception as exn:
+                ctx.violation(f"Function.membership/scope/internal-{type(exn).__name__}", case, ex, f"{type(exn).__name__}: {exn}", step=i)
+                break
+            if ex[0] == "value":
+                nontrivial = True
+                want = kexpr.value(ex[1])
+                if err is not None:
+                    ctx.violation("Function.membership/scope/raises-on-resolvable", case, want, err, note=f"step {i}: every variable of '{f.formula}' is in scope but membership raised {err}", step=i)
+                    break
+                if not feq(got, want):
+                    ctx.violation("Function.membership/scope/stale-or-wrong-value", case, want, got, note=f"step {i}: '{f.formula}' evaluated to {got}; with the current engine values, term variables and x it is {want}", step=i)
+                    break
+            elif err is None:
+                ctx.violation(f"Function.membership/scope/evaluated-despite-{ex[1]}", case, ex, got, note=f"step {i}: expected {ex[0]} ({ex[1]})", step=i)
+                break
+        ctx.case(("scope", ctx.traces), nontrivial)
+    ctx.sample({"scope_behaviour": g.emitted[len(g.emitted) // 2]})
+    ctx.extra["scope_behaviours_replayed"] = len(g.emitted)
+
+
 def run(ctx: core.Ctx):
     fl = core.import_fuzzylite()
     rng = random.Random(ctx.seed)
+    scope_leg(ctx, fl)
     head = "SPECIFICATION Spec\nCONSTANTS FromFile = {ff}\n  Emit = {e}\n  RightAssocMinus = {c}\n"
     g = ctx.tlc("MC_FunctionSyntax", write_cfg("MC_FunctionSyntax", head.format(ff="FALSE", e="TRUE", c="FALSE") + "INVARIANT RoundTrip\nINVARIANT PostfixAgrees\nINVARIANT EmitInv\nCHECK_DEADLOCK FALSE\n"), workers=16, timeout=3000)
     ctx.expect_holds(g, "MC_FunctionSyntax")
@@ -212,8 +308,9 @@ def run(ctx: core.Ctx):
         except ValueError:
             pass
     ctx.exhaustive = True
-    ctx.rule = (f"TLC enumerates 8,663 well-typed trees x 2 parenthesis styles (every second tree replayed in the quick tier) and evaluates {nf} seeded trees of depth 3-5 over "
-                "all 13 operators and 34 functions; each text, spaced and unspaced, is loaded by Function.create; postfix and values under 5 assignments, scalars and arrays")
+    ctx.rule = (f"TLC enumerates {len(g.emitted)} well-typed trees x 2 parenthesis styles (every second tree replayed in the quick tier) and evaluates {nf} seeded trees of depth 3-5 over "
+                "all 13 operators and 34 functions; each text, spaced and unspaced, is loaded by Function.create; postfix and values under 5 assignments, scalars and arrays; "
+                f"{ctx.extra.get('scope_behaviours_replayed')} behaviours of spec/MC_FunctionScope (engine / variable / term edits interleaved with evaluations) replayed on long-lived terms")
     ctx.assumptions += ["discontinuous elements (floor, ceil, round, %, fmod, comparisons, min, max, logical operators) are applied to rational subtrees only, so that "
                         "rounding cannot flip them; transcendental functions are evaluated by libm (1e-9)",
                         "truth-valued and/or/! results are used only under logical operators or as the final result (well-typed formulas, as the property states)"]
